@@ -110,7 +110,7 @@ def check_lookup(case, ctx):
 # ------------------------------------------------------------------------------------ malformed
 ROOT_FAULTS = ["", "n", "mm", "m'", " m", "m ", "Mm", "x", "1", "/m", "m'", "mh", "µ", "ｍ"]
 JUNK = ["a", "abc", "0x1f", "0b1", "0o7", "1.5", "1e3", "12a", "a12", "'", "h", "1''", "1hh", "1'h", "1h'", "--1", "1-",
-        "1H", "'1", "h1", "1'1", "None", "1,2", "1;2", "0x", "²", "1²", "٣x", "1\x00", "\\1"]
+        "'1", "h1", "1'1", "None", "1,2", "1;2", "0x", "²", "1²", "٣x", "1\x00", "\\1"]
 RANGE = ["-1", "-1'", "-1h", "-2147483648'", "-2147483649'", "2147483648'", "2147483648h", "4294967295'", "4294967296",
          "4294967296'", "4294967297", "-4294967296", "-2147483647", "99999999999999999999999999999",
          "99999999999999999999999999999'", "-99999999999999999999999999999", "2147483649'", "3000000000h"]
@@ -198,7 +198,7 @@ def _safe_str(o):
 
 
 # ------------------------------------------------------------------------------------ lenient tokens (counted only)
-LENIENT = [" 1", "1 ", "+1", "1_0", "１", "٣", "-0", "-0'", "01", "000'", "+0h", "\t5", "5\n"]
+LENIENT = [" 1", "1 ", "+1", "1_0", "１", "٣", "-0", "-0'", "01", "000'", "+0h", "\t5", "5\n", "1H", "1 '"]
 
 
 def check_lenient(case, ctx):
